@@ -43,6 +43,11 @@ func keyPool() []types.Value {
 		types.NewInt8(1), types.True, types.NewString("\x01"),
 		types.NewString("a"), types.NewString("b"), nil,
 		types.NewSlice(types.NewInt(1)), types.NewMap(types.NewString("a"), types.NewInt(1)),
+		// composite keys that collide: slices of equal length whose elements have identical hash bytes but are of
+		// different kinds – inside one bucket only Compare tells them apart (seeded change c15l: Slice.Compare
+		// answered 0 for equal length and equal memoised hash)
+		types.NewSlice(types.NewInt64(1)), types.NewSlice(types.NewUint64(1)),
+		types.NewSlice(types.NewString(le1x8)), types.NewSlice(types.NewBinary([]byte(le1x8))),
 	}
 }
 
